@@ -450,8 +450,20 @@ func StuckOnMutex() (site string, text string, ok bool) {
 	}
 	time.Sleep(2 * time.Second)
 	b := parked()
+	// Inside a synctest bubble a goroutine waiting for a sync.Mutex keeps virtual time from advancing. If library code
+	// of the same bubble is inside time.Sleep, the lock may simply be held across that sleep (which can never end there):
+	// an artefact of the virtual clock, not a leaked lock.
+	sleepers := map[string]bool{}
+	for _, g := range ParseStacks(AllStacks()) {
+		if strings.Contains(g.Text, LibPrefix) && strings.Contains(g.Header, "[sleep") {
+			sleepers[bubbleOf(g.Header)] = true
+		}
+	}
 	for id, g := range a {
 		if g2, still := b[id]; still && g2.InnermostLib() == g.InnermostLib() {
+			if bub := bubbleOf(g2.Header); bub != "" && sleepers[bub] {
+				continue
+			}
 			return g.InnermostLib(), g2.Text, true
 		}
 	}
